@@ -19,6 +19,16 @@ structure Layout where
   endLine : Str       -- "M  END"
   sepLine : Str       -- "$$$$"
   defaultTitle : Str
+  -- reader slices (0-based, half-open): counts, atom record, bond record
+  sNatom : Nat × Nat
+  sNbond : Nat × Nat
+  sX : Nat × Nat
+  sY : Nat × Nat
+  sZ : Nat × Nat
+  sSym : Nat × Nat
+  sB1 : Nat × Nat
+  sB2 : Nat × Nat
+  sBt : Nat × Nat
   deriving DecidableEq, Repr
 
 structure Atom where
@@ -68,26 +78,21 @@ def pyNat (e : LErr) (s : Str) : R Nat :=
   | some (.ofNat n) => .ok n
   | _ => .error e
 
-/-- atom record of `load_one`: `words = next(lit).split()` -/
-def loadAtom (T : Tables) (L : Layout) (line : Str) : R Atom :=
-  let ws := splitWs line
-  match ws[0]?, ws[1]?, ws[2]?, ws[3]? with
-  | some w0, some w1, some w2, some w3 =>
-    match pyFix L.coordD w0, pyFix L.coordD w1, pyFix L.coordD w2, T.num? (title w3) with
-    | some x, some y, some z, some zn => .ok ⟨x, y, z, zn⟩
-    | _, _, _, _ => .error .float
-  | _, _, _, _ => .error .index
+def sl (p : Nat × Nat) (s : Str) : Str := slice p.1 p.2 s
 
-/-- bond record: `int(words[0]) - 1`, `int(words[1]) - 1`, `int(words[2])` (an index below one or a
+/-- atom record of `load_one`: cut by column -/
+def loadAtom (T : Tables) (L : Layout) (line : Str) : R Atom :=
+  match pyFix L.coordD (sl L.sX line), pyFix L.coordD (sl L.sY line), pyFix L.coordD (sl L.sZ line),
+        T.num? (title (strip (sl L.sSym line))) with
+  | some x, some y, some z, some zn => .ok ⟨x, y, z, zn⟩
+  | _, _, _, _ => .error .float
+
+/-- bond record: `int(line[0:3]) - 1`, `int(line[3:6]) - 1`, `int(line[6:9])` (an index below one or a
 negative type is outside the model: reported as an error) -/
-def loadBond (line : Str) : R Bond :=
-  let ws := splitWs line
-  match ws[0]?, ws[1]?, ws[2]? with
-  | some w0, some w1, some w2 =>
-    match pyNat .int w0, pyNat .int w1, pyNat .int w2 with
-    | .ok (a + 1), .ok (b + 1), .ok t => .ok ⟨a, b, t⟩
-    | _, _, _ => .error .int
-  | _, _, _ => .error .index
+def loadBond (L : Layout) (line : Str) : R Bond :=
+  match pyNat .int (sl L.sB1 line), pyNat .int (sl L.sB2 line), pyNat .int (sl L.sBt line) with
+  | .ok (a + 1), .ok (b + 1), .ok t => .ok ⟨a, b, t⟩
+  | _, _, _ => .error .int
 
 /-- `while True: words = next(lit); if words == "$$$$\n": break` -/
 def hasEnd (sep : Str) (ls : List Str) : Bool := ls.any (· == ln sep)
@@ -95,57 +100,44 @@ def hasEnd (sep : Str) (ls : List Str) : Bool := ls.any (· == ln sep)
 /-- `load_one` -/
 def load (T : Tables) (L : Layout) : List Str → R Obj
   | l0 :: _ :: _ :: l3 :: rest =>
-    let ws := splitWs l3
-    match ws[0]?, ws[1]?, ws.getLast? with
-    | some w0, some w1, some wl =>
-      match pyNat .int w0, pyNat .int w1 with
-      | .ok natom, .ok nbond =>
+    match pyNat .int (sl L.sNatom l3), pyNat .int (sl L.sNbond l3) with
+    | .ok natom, .ok nbond =>
+      match (splitWs l3).getLast? with
+      | none => .error .index
+      | some wl =>
         if upper wl != "V2000".toList then .error .format else
         match readN (loadAtom T L) natom rest with
         | .error e => .error e
         | .ok (atoms, rest1) =>
-          match readN loadBond nbond rest1 with
+          match readN (loadBond L) nbond rest1 with
           | .error e => .error e
           | .ok (bonds, rest2) =>
             if hasEnd "$$$$".toList rest2 then .ok ⟨strip l0, atoms, bonds⟩ else .error .eof
-      | _, _ => .error .int
-    | _, _, _ => .error .index
+    | _, _ => .error .int
   | _ => .error .eof
 
 def norm (L : Layout) (o : Obj) : Obj := ⟨outTitle L o.title, o.atoms, o.bonds⟩
 
 def okTitle (t : Str) : Bool := decide (Trimmed t) && !t.contains '\n'
 
-/-- element usable in the blank-separated symbol column -/
-def okZ (T : Tables) (z : Nat) : Bool :=
+/-- element usable in the symbol column: blank-free, fits, and `sym2num[sym.title()]` maps it back -/
+def okZ (T : Tables) (L : Layout) (z : Nat) : Bool :=
   match T.sym? z with
   | none => false
-  | some s => decide (NoWs s) && !s.isEmpty && (T.num? (title s) == some z)
+  | some s => decide (NoWs s) && decide (s.length ≤ L.symW) && (T.num? (title s) == some z)
 
-/-- a number leaves at least one blank in its column -/
-def narrowFx (L : Layout) (v : Fx) : Bool := decide ((fixCore false L.coordD v).length < L.coordW)
-def narrowNat (w n : Nat) : Bool := decide ((natToDec n).length < w)
-
-/-- the part of the documented domain on which the *splitting* reader reads its own writer's files:
-the y and z coordinates, the bond count, the second atom number and the bond type of every bond do not
-fill their columns (x, the atom count and the first atom number may: nothing precedes them) -/
-def Dom (T : Tables) (L : Layout) (o : Obj) : Prop :=
-  okTitle o.title = true ∧ narrowNat L.cntW o.bonds.length = true ∧
-  (∀ a ∈ o.atoms, okZ T a.zn = true ∧ narrowFx L a.y = true ∧ narrowFx L a.z = true) ∧
-  (∀ b ∈ o.bonds, narrowNat L.bondW (b.j + 1) = true ∧ narrowNat L.bondW b.t = true)
-
-instance (T : Tables) (L : Layout) (o : Obj) : Decidable (Dom T L o) := by unfold Dom; infer_instance
-
-/-- what the column layout itself can hold (V2000): every number fits its column -/
+/-- the number fits its column -/
 def fitsFx (L : Layout) (v : Fx) : Bool := decide ((fixCore false L.coordD v).length ≤ L.coordW)
 def fitsNat (w n : Nat) : Bool := decide ((natToDec n).length ≤ w)
 
-def ColDom (T : Tables) (L : Layout) (o : Obj) : Prop :=
+/-- documented domain = what the V2000 columns can hold: every count, atom number, bond type and
+coordinate fits its column (neighbouring fields may touch), known elements, single-line title -/
+def Dom (T : Tables) (L : Layout) (o : Obj) : Prop :=
   okTitle o.title = true ∧ fitsNat L.cntW o.atoms.length = true ∧ fitsNat L.cntW o.bonds.length = true ∧
-  (∀ a ∈ o.atoms, okZ T a.zn = true ∧ fitsFx L a.x = true ∧ fitsFx L a.y = true ∧ fitsFx L a.z = true) ∧
+  (∀ a ∈ o.atoms, okZ T L a.zn = true ∧ fitsFx L a.x = true ∧ fitsFx L a.y = true ∧ fitsFx L a.z = true) ∧
   (∀ b ∈ o.bonds, fitsNat L.bondW (b.i + 1) = true ∧ fitsNat L.bondW (b.j + 1) = true ∧ fitsNat L.bondW b.t = true)
 
-instance (T : Tables) (L : Layout) (o : Obj) : Decidable (ColDom T L o) := by unfold ColDom; infer_instance
+instance (T : Tables) (L : Layout) (o : Obj) : Decidable (Dom T L o) := by unfold Dom; infer_instance
 
 /-- side conditions on the literal parts of the layout -/
 def LayoutOK (L : Layout) : Prop :=
@@ -153,7 +145,12 @@ def LayoutOK (L : Layout) : Prop :=
   AllWs L.symGap ∧ L.symGap ≠ [] ∧
   brkB L.countsTail = true ∧ brkB L.atomTail = true ∧ brkB L.bondTail = true ∧
   ((splitWs (ln L.countsTail)).getLast?.map upper = some "V2000".toList) ∧
-  L.sepLine = "$$$$".toList
+  L.sepLine = "$$$$".toList ∧
+  -- writer columns = reader slices
+  L.sNatom = (0, L.cntW) ∧ L.sNbond = (L.cntW, 2 * L.cntW) ∧
+  L.sX = (0, L.coordW) ∧ L.sY = (L.coordW, 2 * L.coordW) ∧ L.sZ = (2 * L.coordW, 3 * L.coordW) ∧
+  L.sSym = (3 * L.coordW + L.symGap.length, 3 * L.coordW + L.symGap.length + L.symW) ∧
+  L.sB1 = (0, L.bondW) ∧ L.sB2 = (L.bondW, 2 * L.bondW) ∧ L.sBt = (2 * L.bondW, 3 * L.bondW)
 
 instance (L : Layout) : Decidable (LayoutOK L) := by unfold LayoutOK; infer_instance
 
@@ -177,13 +174,14 @@ def expectedWrites (L : Layout) : List Write :=
     (f, [.lit L.endLine, .lit ['\n']]),
     (f, [.lit L.sepLine, .lit ['\n']]) ]
 
-/-- which `words[i]` the splitting reader uses for what (compared with `Gen.Layouts.sdf_words`) -/
-def expectedWords : List WordUse :=
+/-- the slices of the reader, in source order (compared with `Gen.Layouts.sdf_slices`) -/
+def expectedSlices (L : Layout) : List Slice :=
   let f := "load_one".toList
-  [ ⟨f, "natom".toList, 0⟩, ⟨f, "nbond".toList, 1⟩, ⟨f, "<test>".toList, -1⟩,
-    ⟨f, "atcoords[iatom, 0]".toList, 0⟩, ⟨f, "atcoords[iatom, 1]".toList, 1⟩, ⟨f, "atcoords[iatom, 2]".toList, 2⟩,
-    ⟨f, "atnums[iatom]".toList, 3⟩,
-    ⟨f, "bonds[ibond, 0]".toList, 0⟩, ⟨f, "bonds[ibond, 1]".toList, 1⟩, ⟨f, "bonds[ibond, 2]".toList, 2⟩ ]
+  [ ⟨f, "natom".toList, L.sNatom.1, some L.sNatom.2, false⟩, ⟨f, "nbond".toList, L.sNbond.1, some L.sNbond.2, false⟩,
+    ⟨f, "atcoords[iatom, 0]".toList, L.sX.1, some L.sX.2, false⟩, ⟨f, "atcoords[iatom, 1]".toList, L.sY.1, some L.sY.2, false⟩,
+    ⟨f, "atcoords[iatom, 2]".toList, L.sZ.1, some L.sZ.2, false⟩, ⟨f, "atnums[iatom]".toList, L.sSym.1, some L.sSym.2, false⟩,
+    ⟨f, "bonds[ibond, 0]".toList, L.sB1.1, some L.sB1.2, false⟩, ⟨f, "bonds[ibond, 1]".toList, L.sB2.1, some L.sB2.2, false⟩,
+    ⟨f, "bonds[ibond, 2]".toList, L.sBt.1, some L.sBt.2, false⟩ ]
 
 /-! ### the published layout: CTfile V2000 column table (hand-written from the specification)
 
@@ -199,17 +197,15 @@ def specV2000 : Layout :=
     bondTail := "  0  0  0  0".toList
     endLine := "M  END".toList
     sepLine := "$$$$".toList
-    defaultTitle := "Created with IOData".toList }
+    defaultTitle := "Created with IOData".toList
+    sNatom := (0, 3), sNbond := (3, 6), sX := (0, 10), sY := (10, 20), sZ := (20, 30), sSym := (31, 34),
+    sB1 := (0, 3), sB2 := (3, 6), sBt := (6, 9) }
 
-/-- the columns `(start, end)` (0-based, half-open) of a layout's variable fields:
-counts natom/nbond/version, atom x/y/z/symbol, bond a/b/type -/
-def columns (L : Layout) : List (Nat × Nat) :=
-  let c := L.cntW; let w := L.coordW; let g := L.symGap.length; let b := L.bondW
-  [ (0, c), (c, 2 * c), (2 * c + L.countsTail.length - 6, 2 * c + L.countsTail.length),
-    (0, w), (w, 2 * w), (2 * w, 3 * w), (3 * w + g, 3 * w + g + L.symW),
-    (0, b), (b, 2 * b), (2 * b, 3 * b) ]
+/-- the reader's columns: counts natom/nbond, atom x/y/z/symbol, bond a/b/type -/
+def readerColumns (L : Layout) : List (Nat × Nat) :=
+  [L.sNatom, L.sNbond, L.sX, L.sY, L.sZ, L.sSym, L.sB1, L.sB2, L.sBt]
 
 def specColumns : List (Nat × Nat) :=
-  [ (0, 3), (3, 6), (33, 39), (0, 10), (10, 20), (20, 30), (31, 34), (0, 3), (3, 6), (6, 9) ]
+  [ (0, 3), (3, 6), (0, 10), (10, 20), (20, 30), (31, 34), (0, 3), (3, 6), (6, 9) ]
 
 end Iodata.Fmt.Sdf
